@@ -39,10 +39,11 @@ META = {
 
 DEV = "DEV_OldVmNotAwaited"            # CompileAndRun
 DEVU = "DEV_UnloadedVmNotAwaited"      # UnloadProgram
-DEVS = (DEV, DEVU)
+DEVR = "DEV_RegisteredBeforeOldVmStops"  # CompileAndRun: Store.Add before the lock
+DEVS = (DEV, DEVU, DEVR)
 PROP_INVS = ["TypeOK", "LockOK", "NoSendToClosed", "OldVersionsClosed", "PerVmInOrder",
              "ExactlyOneVersion", "NeverNeither", "OnlyLoaded",
-             "WritesInArrivalOrder", "LastWriteIsLastLine", "NoOverlap"]
+             "WritesInArrivalOrder", "LastWriteIsLastLine", "NoWriteLost", "NoOverlap"]
 IMPL_INVS = PROP_INVS[:8]
 HOOKS = {"rt.line.recv", "rt.line.sent", "vm.line.start", "vm.line.end", "vm.exit",
          "rt.load.registered", "rt.load.closed_old", "rt.load.swapped", "rt.unload", "h.end"}
@@ -316,7 +317,7 @@ def model_stage(ctx):
             raise vlib.InfraError("Reload.tla: actions never taken (vacuous model): %s" % r1.zero_cov)
     # each deviation really breaks the property
     ctx.cov["dev_counterexamples"] = {}
-    for dev, k in ((DEV, RELOAD), (DEVU, UNLOAD)):
+    for dev, k in ((DEV, RELOAD), (DEVU, UNLOAD), (DEVR, RELOAD)):
         d = vlib.expect_dev_counterexample(
             ctx, "Reload", model_cfg(k["nlines"], [1], k["init"], k["loadable"], k["maxver"], k["maxloads"],
                                      k["unloadable"], (dev,)), dev)
@@ -353,16 +354,12 @@ def classify_replay(ctx, binary, cases, results, held, what):
     return len(bad)
 
 
-def probe(ctx, binary, cases, need_unload):
-    """Does the real code follow a schedule that only the deviation allows (the loader completes while the
-    previous VM is held inside a line, the next line is processed by the new VM first)?  Positive evidence
-    only: the schedule is followed to the end and the writes come out of arrival order, twice."""
-    def acts(c):
-        return [s["a"] for s in c["steps"]]
-    cand = sorted([c for c in cases if not c["inorder"] and ("Unload" in acts(c)) == need_unload],
-                  key=lambda c: len(c["steps"]))
+def probe(ctx, binary, cases, pick):
+    """Does the real code follow a schedule, with the outcome, that only the deviation allows?  Positive
+    evidence only: the schedule is followed to the end with the deviation's events and gauge values, twice."""
+    cand = sorted([c for c in cases if pick(c)], key=lambda c: len(c["steps"]))
     if not cand:
-        raise vlib.InfraError("the model with the deviation emitted no out-of-order behaviour to probe with")
+        raise vlib.InfraError("the model with the deviation emitted no behaviour to probe with")
     p = dict(cand[0])
     p["deadline_ms"] = 3000
     res = None
@@ -373,26 +370,55 @@ def probe(ctx, binary, cases, need_unload):
     return True, p, res
 
 
+def acts(c):
+    return [s["a"] for s in c["steps"]]
+
+
+_emitted = {}
+
+
+def emitted(ctx, name, k, devs):
+    """Emission cache: the behaviours of configuration k under the deviations that matter for it."""
+    eff = tuple(sorted(d for d in devs if not (d == DEVU and not k["unloadable"])))
+    key = (name, eff)
+    if key not in _emitted:
+        _emitted[key] = emit_set(ctx, "emit-%s-%s" % (name, "+".join(x[4:10] for x in eff) or "corrected"), k, eff)
+    return _emitted[key]
+
+
 def run(ctx):
     binary = vlib.build(ctx, "c20")
     opened = set(vlib.open_devs(ctx.prop))
+    _emitted.clear()
     model_stage(ctx)
 
     # ---- which model is the real code held to? --------------------------------------------------
-    all_reload = emit_set(ctx, "emit-reload-dev", RELOAD, (DEV,))
-    all_unload = emit_set(ctx, "emit-unload-dev", UNLOAD, DEVS)
-    only_unload = emit_set(ctx, "emit-unload-devU", UNLOAD, (DEVU,))     # out of order only through UnloadProgram
+    # each deviation is probed with a schedule of the model that has this deviation (and the ones already
+    # found present) switched on, which the corrected design cannot follow or follows with another outcome
     present, witness = set(), {}
-    for dev, cases, need_unload, site in ((DEV, all_reload, False, "CompileAndRun"), (DEVU, only_unload, True, "UnloadProgram")):
-        ok, p, res = probe(ctx, binary, cases, need_unload)
+    plan = (
+        (DEVR, "reload", RELOAD, "CompileAndRun registers the new version's metrics (Store.Add) while the old VM still runs",
+         lambda c: c["lost"] and "RlSwapGo" not in acts(c)),
+        (DEV, "reload", RELOAD, "CompileAndRun does not wait for the previous VM",
+         lambda c: not c["inorder"]),
+        (DEVU, "unload", UNLOAD, "UnloadProgram does not wait for the VM",
+         lambda c: not c["inorder"] and "Unload" in acts(c)),
+    )
+    for dev, name, k, site, pick in plan:
+        base = tuple(sorted((present & {DEVR}) | {dev}))
+        ok, p, res = probe(ctx, binary, emitted(ctx, name, k, base), pick)
         if not ok:
             vlib.log("%s: the real code does not follow the deviation's witness schedule (%s)" % (dev, res.get("mismatch")))
             continue
         present.add(dev)
         w = res["writes"][0]
-        text = ("%s does not wait for the previous VM: schedule [%s] on the real runtime gives gauge writes (line, version) "
-                "%s - line %d (old VM) is applied after line %d (new VM)" % (site, short(p), w, w[-1][0], w[-2][0]))
-        witness[dev] = {"schedule": short(p), "writes": w}
+        if dev == DEVR:
+            text = ("%s: schedule [%s] on the real runtime: the old VM applies writes (line, version) %s but the store "
+                    "exports %s - the effect of those lines is lost" % (site, short(p), w, p["steps"][-1]["g"][0]))
+        else:
+            text = ("%s: schedule [%s] on the real runtime gives gauge writes (line, version) %s - line %d (old VM) is "
+                    "applied after line %d (new VM)" % (site, short(p), w, w[-1][0], w[-2][0]))
+        witness[dev] = {"schedule": short(p), "writes": w, "exported_after": p["steps"][-1]["g"][0]}
         if dev in opened:
             ctx.known_finding(dev, text)
         else:
@@ -405,11 +431,8 @@ def run(ctx):
     held = tuple(sorted(present))
 
     # ---- direction A --------------------------------------------------------------------------
-    sets = [("reload at every position, 3 lines",
-             all_reload if DEV in present else emit_set(ctx, "emit-reload", RELOAD, ())),
-            ("load + unload + load again, 2 lines",
-             all_unload if present == set(DEVS) else only_unload if present == {DEVU} else
-             emit_set(ctx, "emit-unload", UNLOAD, held))]
+    sets = [("reload at every position, 3 lines", emitted(ctx, "reload", RELOAD, held)),
+            ("load + unload + load again, 2 lines", emitted(ctx, "unload", UNLOAD, held))]
     if ctx.thorough:
         sets.append(("two reloads, 3 lines", emit_set(ctx, "emit-2reloads", dict(RELOAD, maxver=3, maxloads=2), held)))
         sets.append(("reload + unload, 4 lines",
